@@ -145,6 +145,7 @@ class Run:
         self.pending_deferreds = []
         self.current_plan = {}
         self.decoy_callers = []
+        self.replica_runs = []
 
     def build_exporter_class(self):
         sc = self.sc
@@ -253,10 +254,25 @@ class Run:
             if not c.conn_result or c.conn_result[0][0] != 'ok':
                 ctx.report(classify_connect(c), 'a client could not attach to the built-in bus: %r' % (c.conn_result,), w, case)
                 return False
+        rcls = None
+        if sc.idx % 4 == 3:
+            # another client of the same process exports an object of its own at the very same path (replicas of a
+            # service, one process on two buses): calls addressed to the first exporter are none of its business
+            replica = net.real_client()
+            busnet.pump(net)
+            if replica.conn_result and replica.conn_result[0][0] == 'ok':
+                rcls = type('Replica%d' % sc.idx, (O.DBusObject,), {
+                    'dbusInterfaces': [I.DBusInterface('org.verif.c11.Replica', I.Method('Who', returns='s'), noRegister=True)],
+                    'dbus_Who': lambda self_: self.replica_runs.append('who') or 'replica'})
+                replica.conn.exportObject(rcls('/exp'))
+                ctx.count('scenarios_with_a_replica_exporter_in_the_process')
         obj = self.build_exporter_class()('/exp')
         if getattr(self, 'hierarchy_levels', None) and min(self.hierarchy_levels) > 0:
             ctx.count('exporters_binding_one_interface_on_two_class_levels')
         exporter.conn.exportObject(obj)
+        if sc.idx % 8 == 7 and rcls is not None:
+            # ... and once more after the first exporter (an export replaces what THAT connection had at the path)
+            replica.conn.exportObject(rcls('/exp'))
         dest = exporter.conn.busName
         if sc.use_name:
             out = clientfix.Outcome(exporter.conn.requestBusName(WELL_KNOWN))
@@ -458,6 +474,10 @@ class Run:
                     call['method'], n, same_args_calls), dict(w, invocations=[(m, repr(a)[:80], wh) for m, a, wh in self.invocations]),
                     case)
                 ok = False
+        if self.replica_runs:
+            ctx.report('invocation-count', 'an object exported at the same path by ANOTHER client of the process ran %d times '
+                       'for calls addressed to the exporter' % len(self.replica_runs), w, case)
+            ok = False
         if len(self.invocations) != len(sc.calls):
             ctx.report('invocation-count', '%d implementation runs for %d calls' % (len(self.invocations), len(sc.calls)),
                        dict(w, invocations=[(m, repr(a)[:80], wh) for m, a, wh in self.invocations]), case)
